@@ -4,7 +4,7 @@
    no theorem covers that evaluation; spec_C06 compares the crate's f64 with the exact tail
    (relative 10^-9), checks 0 <= p <= 1 and monotonicity in k on the crate's values, and the fold
    enrichment bit for bit (Flocq binary64). *)
-From HpoV Require Import Gen.Consts Model.Base Model.Group Model.Onto Model.Query Model.F64 Model.Enrich Proofs.C06P Proofs.BinomP.
+From HpoV Require Import Gen.Consts Model.Base Model.Group Model.Onto Model.Query Model.F64 Model.Enrich Proofs.C06P Proofs.BinomP Proofs.C06T.
 
 (* SampleSet: size = number of terms; count(g) = number of links between g and the terms *)
 Theorem C06_counts : forall o k terms sz c, calculate_counts o k terms = Ok (sz, c) ->
@@ -51,6 +51,18 @@ Theorem C06_executed_tail_is_exact_tail : forall P K n x, (K <= P)%nat -> (n <= 
   sf_fast (N.of_nat P) (N.of_nat K) (N.of_nat n) (N.of_nat x) = sf_exact (N.of_nat P) (N.of_nat K) (N.of_nat n) (N.of_nat x).
 Proof. exact sf_fast_is_sf_exact. Qed.
 
+(* TOTALITY: the enrichment returns (one record per annotation of the sample) when every annotation id of
+   the terms resolves to a record, the sample is not larger than the background and no annotation is
+   linked more often in the sample than in the background — as for every sample drawn from the
+   background; none of the expect() calls of stats/hypergeom panics *)
+Theorem C06_enrichment_returns : forall o k background sample,
+  (forall t, In t background -> resolves o k t) -> (forall t, In t sample -> resolves o k t) ->
+  (forall t, In t background -> NoDup (t_annots k t)) ->
+  Nlen sample <= Nlen background -> Nlen background <= 4294967295 ->
+  (forall g, links k g sample <= links k g background) ->
+  exists recs, enrichment o k background sample = Ok recs.
+Proof. exact enrichment_total. Qed.
+
 Print Assumptions C06_counts.
 Print Assumptions C06_binomial.
 Print Assumptions C06_vandermonde.
@@ -60,3 +72,4 @@ Print Assumptions C06_executed_tail_is_exact_tail.
 Print Assumptions C06_exact_tail_antitone.
 Print Assumptions C06_sf_below_min_is_one.
 Print Assumptions C06_sf_at_max_is_zero.
+Print Assumptions C06_enrichment_returns.
